@@ -1,7 +1,7 @@
 (* Proofs/ExprTcTableProofs.v — C08 over the GENERATED descriptor table: one obligation per row. *)
 From Octo Require Import Expr ExprProofs ExprTc ExprTcProofs GenFunctions.
 
-(* every row whose body is modelled declares an OutputType that admits everything the body can return *)
+(* every row whose body is modelled declares an OutputType that allows everything the body can return *)
 Lemma table_outputs_ok : forallb (fun d => implb (desc_claimed d) (row_output_ok d)) function_table = true.
 Proof. vm_compute. reflexivity. Qed.
 
@@ -23,7 +23,7 @@ Proof.
   intros Hin M Bk Hc W. apply (call_sound env ctx d args ks Hc (table_row_ok d Hin M) M Bk W).
 Qed.
 
-(* a strict modelled descriptor whose declared OutputType does not admit NULL never returns NULL on non-NULL
+(* a strict modelled descriptor whose declared OutputType does not allow NULL never returns NULL on non-NULL
    arguments of any types: "functions whose declared result is non-nullable never return NULL" *)
 Theorem table_non_nullable_result ctx d args vs v t :
   In d function_table -> desc_modelled d = true ->
